@@ -2581,3 +2581,35 @@ TWINS = list(TWINS) + [
       "                self.filter.apply_manual_indices(self, manual_pidx)\n"
       )),
 ]
+
+# round-5 refactoring campaign/refactorings_round5/C20/refactor5: local
+# aliases of self.hparent / self._events in the refresh
+def _alias_refresh(src, drop_clear=False):
+    a = src.index("        # Copy event data from hierarchy parent\n")
+    b = src.index("        # Update configuration\n        self._update_config()")
+    body = src[a:b]
+    body = body.replace("self.hparent", "hparent").replace(
+        "self._events", "events")
+    if drop_clear:
+        body = body.replace("        events.clear()\n", "")
+    return (src[:a] + "        hparent = self.hparent\n"
+            "        events = self._events\n\n" + body + src[b:])
+
+
+TWINS = list(TWINS) + [
+    ("refresh through local aliases of self.hparent and self._events", BASE,
+     _alias_refresh),
+]
+
+MUTANTS = list(MUTANTS) + [
+    ("aliased refresh without clearing the event cache", BASE,
+     lambda s: _alias_refresh(s, drop_clear=True), "R4."),
+    ("aliased feature cache filled before the parent refresh", BASE,
+     lambda s: _alias_refresh(s).replace(
+         "        # Copy event data from hierarchy parent\n"
+         "        hparent.apply_filter(*args, **kwargs)\n", "").replace(
+         "        # Update configuration\n        self._update_config()",
+         "        hparent.apply_filter(*args, **kwargs)\n"
+         "        # Update configuration\n        self._update_config()", 1),
+     "R4.1"),
+]
